@@ -45,6 +45,10 @@ CASES = [
     ('decorator_method', [('K.m', 'sigtools.signature'), ('obj.m', 'sigtools.signature')]),
     ('forger_method', [('obj.me', 'inspect.signature'), ('obj.me', 'sigtools.signature')]),
     ('forger_method', [('obj.m', 'sigtools.signature'), ('obj2.m', 'sigtools.signature')]),
+    # two instances whose forged signatures differ (the callee is an instance attribute), looked up at the same time
+    ('forger_method_ivar', [('obj.me', 'inspect.signature'), ('obj2.me', 'inspect.signature')]),
+    ('forger_method_ivar', [('obj.me', 'sigtools.signature'), ('obj2.me', 'inspect.signature')]),
+    ('forger_method_ivar', [('obj.m', 'sigtools.signature'), ('obj2.m', 'sigtools.signature')]),
     ('modifiers_method', [('obj.m', 'sigtools.signature'), ('obj.m', 'inspect.signature')]),
     ('modifiers_method', [('obj.m', 'sigtools.signature'), ('obj2.m', 'sigtools.signature')]),
     ('modifiers_method', [('obj.m', 'call'), ('obj2.m', 'call')]),
@@ -79,7 +83,7 @@ def guard():
 
 def build(name):
     g, _, src = scenarios.build(name, INNER, OUTER)
-    if 'K' in g and isinstance(g['K'], type):
+    if 'K' in g and isinstance(g['K'], type) and 'obj2' not in g:
         g['obj2'] = g['K']()
     return g, src
 
